@@ -371,8 +371,13 @@ def model_line_rt(s, kind, mode, r, env, fmt, table, rec, base="N"):
 def direct_product(spec, configs, with_tb=True):
     """one exception through the real dump -> brine -> load under each (s, r) of configs;
     yields (s, r, model op line, observation dict, info)"""
+    for item in direct_product_obj(build_exc(spec), configs, with_tb):
+        yield item
+
+
+def direct_product_obj(exc, configs, with_tb=True):
+    """the same for an exception OBJECT (hop two of a relay: the object another load returned)"""
     from rpyc.core import vinegar, brine
-    exc = build_exc(spec)
     t, v, tb = capture(exc) if with_tb else (type(exc), exc, None)
     rec = ve.extract_record(t, v, tb)
     m, c = t.__module__, t.__name__
@@ -399,6 +404,32 @@ def direct_product(spec, configs, with_tb=True):
         obs = observe_load(wire, rf, m, c, info["slots"])
         obs["pay"] = pay
         yield s, r, model_line_rt(s[:2] + "FF", rec[0], "d", r, env, fmt, table, rec, obs["base"]), obs, info
+
+
+def first_hop(spec, s1, r1):
+    """the exception object a first receiver (switches r1) builds from what a first sender (switches s1) dumps; None when the
+    first hop does not end in an exception instance (marker path, load error)"""
+    from rpyc.core import vinegar, brine
+    exc = build_exc(spec)
+    t, v, tb = capture(exc)
+    sf, rf = flags(s1), flags(r1)
+    try:
+        obj = vinegar.load(brine.load(brine.dump(vinegar.dump(t, v, tb, sf[0], sf[1]))), rf[0], rf[1], rf[2])
+    except Exception:  # noqa
+        obj = None
+    for m in [m for m in ("c09pool_fresh", "c09pool_broken") if m in sys.modules]:
+        sys.modules.pop(m, None)
+    ve.reset_canaries()
+    return obj if isinstance(obj, BaseException) else None
+
+
+def two_hop_product(spec, s1, r1, configs2):
+    """hop one under (s1, r1), then the received object raised on: dump -> brine -> load under each (s2, r2) of configs2"""
+    obj = first_hop(spec, s1, r1)
+    if obj is None:
+        raise Skip("the first hop does not end in an exception instance")
+    for item in direct_product_obj(obj, configs2, True):
+        yield item
 
 
 def run_exc_direct(spec, s, r, with_tb=True):
@@ -526,6 +557,80 @@ class Pair(object):
         res["base"] = ve.base_token(res.get("exc_seen"))
         w.cleanup()
         return res
+
+
+class RelayPair(object):
+    """two real Connections over simnet (threaded, baton-scheduled): A calls B's `relay(cb)`, B calls A's callback `cb`, which
+    raises; B does not catch it.  The exception crosses A -> B (dumped with A's send switches, loaded with B's receive
+    switches) and then, raised on by B's handler, B -> A (B's send switches, A's receive switches)."""
+    def __init__(self, s1, r1, s2, r2):
+        import rpyc
+        import simnet
+
+        class Svc(rpyc.Service):
+            def exposed_relay(self, cb):
+                return cb()
+        def cfg(s, r):
+            sf, rf = flags(s), flags(r)
+            return dict(include_local_traceback=sf[0], include_local_version=sf[1], propagate_SystemExit_locally=False,
+                        propagate_KeyboardInterrupt_locally=False, import_custom_exceptions=rf[0],
+                        instantiate_custom_exceptions=rf[1], instantiate_oldstyle_exceptions=rf[2])
+        self.net = simnet.Net()
+        self.ctx = self.net.installed()
+        self.ctx.__enter__()
+        self.ca, self.cb = self.net.connect_pair(None, Svc(), cfg(s1, r2), cfg(s2, r1))
+        self.relay = self.ca.root.relay
+        self.orig_box = self.cb._box_exc
+
+    def close(self):
+        try:
+            self.net.shutdown([self.ca, self.cb])
+        finally:
+            self.ctx.__exit__(None, None, None)
+
+
+def run_relay_e2e(pair, spec, s2, r2):
+    """one relayed exception; returns (model op line for the SECOND hop, observation of the final requester, info)"""
+    exc = build_exc(spec)
+    if type(exc) in (SystemExit, KeyboardInterrupt, GeneratorExit):
+        raise Skip("not relayed through a handler")
+    cap = {}
+
+    def spy(t, v, tb):
+        try:
+            rec = ve.extract_record(t, v, tb)
+            env, fmt, table, info = ve.environment(t.__module__, t.__name__, rec[6])
+            cap.update(rec=rec, env=env, fmt=fmt, table=table, info=info, m=t.__module__, c=t.__name__)
+        except Unrepresentable as ex:
+            cap["skip"] = str(ex)
+        return pair.orig_box(t, v, tb)
+
+    def boom():
+        raise exc
+    pair.cb._box_exc = spy
+    ve.reset_canaries()
+    obs = dict(delta=[], imp="( )")
+    caught = None
+    with ve.ImportWatch() as w:
+        try:
+            pair.relay(boom)
+            obs["seen"] = "returned"
+        except BaseException as ex:  # noqa
+            caught = ex
+    pair.cb._box_exc = pair.orig_box
+    if "skip" in cap or "rec" not in cap:
+        w.cleanup()
+        raise Skip(cap.get("skip", "the intermediate peer did not box an exception"))
+    obs["init"] = len(ve.canary().INIT)
+    if caught is not None:
+        obs["seen"] = seen_from_exception(caught, cap["m"], cap["c"], cap["info"]["slots"])
+        obs["exc_seen"] = caught
+    obs["base"] = ve.base_token(caught)
+    w.cleanup()
+    line = model_line_rt(s2, cap["rec"][0], "e", r2, cap["env"], cap["fmt"], cap["table"], cap["rec"], obs["base"])
+    info = cap["info"]
+    info.update(m=cap["m"], c=cap["c"], exc=exc, importable=False)
+    return line, obs, info
 
 
 def run_exc_e2e(pair, spec, s, r, sync=True):
